@@ -98,7 +98,7 @@ CLAIMS = [
     },
     {
         "property_id": "C01",
-        "technique": "Lean 4: (1) invariant proof over a guarded transition system of the locking protocol, (2) refinement proof that every critical section of every operation — for arbitrary stale local data — is internal or the call's linearization point, (3) induction over arbitrary interleavings of sections; tied by K3 (deterministic-scheduler executions of the real code, trace replay through the Lean acceptor, exhaustive linearizability search per history)",
+        "technique": "Lean 4: (1) invariant proof over a guarded transition system of the locking protocol, (2) refinement proof that every critical section of every operation — for arbitrary stale local data — is internal or the call's linearization point, (3) induction over arbitrary interleavings of sections, (4) two-phase-locking reduction over single data accesses, (5) sequential operation = schedule of sections, (6) verified linearizability checker; tied by T-E (sync skeletons regenerated from the source) and K3 (deterministic-scheduler executions of the real code, trace replay through the Lean acceptors, histories decided by the verified checker)",
         "text": "Props/C01.lean (protocol): in every execution accepted by Cuckoo.Proto.accept a validated thread works with the current hashpower and the "
                 "current lock array, a sound snapshot with an unchanged resize counter is current unless a resizer sits between its change and its "
                 "bump, a stale snapshot fails validation (induction over arbitrary traces, any number of threads/stripes/lock arrays). "
@@ -118,6 +118,11 @@ CLAIMS = [
                 "values read concurrently (episodes_serializable), end in the concurrent memory (quiescent_memory_eq), give every thread its own access "
                 "sequence hold by hold (thread_view_preserved, episode_is_one_hold, episode_accs) and respect real time (commit_order_respects_real_time). "
                 "K3 replays every recorded trace of /repo through Fine.accept as well (rule T on the real code). "
+                "Props/C01Sched.lean: every sequential operation of the replica (the one K2 compares with the code cell by cell) is Conc.exec of a schedule "
+                "of these sections with the same final table and answer (uprase_is_schedule, fnOp_is_lookupSec, ...), so the sections are the pieces of the "
+                "K2-validated replica. Props/C01Lin.lean: the linearizability oracle used on recorded histories is a verified checker (check_sound, "
+                "check_complete, applySpec_is_specOf: its step function is specOf); the driver decides with it every history the harness rejects and a sample "
+                "of those it accepts. Props/C01Sync.lean: 29 decide-theorems on the synchronisation skeletons regenerated from the source text (T-E). "
                 "STILL ASSUMED: that the block of code between lock and unlock, run atomically, computes the section function of Model/Conc.lean and "
                 "touches only locations guarded by its stripes (tied by K2 - the sections are built from the primitive functions of the sequential replica, which K2 "
                 "compares cell by cell - and by K3's lockset monitor on the code; not proved); helper threads are not part of Conc; "
@@ -137,7 +142,10 @@ CLAIMS = [
                 "publication (hashpower store, all three counter bumps, lazy-counter store) release, lazy decrement acq_rel. K3 checks on the real code "
                 "that every bucket access / functor call / metadata access happens under the right stripe of the current array. Props/C01Red.lean lifts the "
                 "exclusion to data: in every fine-grained execution (single reads/writes interleaved arbitrarily) each hold is atomic — every read returns what the "
-                "serial, hold-by-hold execution returns, so n read-modify-write updates of one key are all applied and no reader sees a mixture. PARTIAL: the data-race "
+                "serial, hold-by-hold execution returns, so n read-modify-write updates of one key are all applied and no reader sees a mixture. "
+                "Props/C03Frame.lean: on the model, a section that locks the stripes of buckets B writes nothing outside those stripes "
+                "(rehashLock/lockSec/hopSec/lookupSec/insertTrySec/insertLastSec_writes_within, schedule_writes_within, for every table satisfying Inv and any "
+                "stale parameters) - the premise of the reduction; read footprints are not proved. PARTIAL: the data-race "
                 "clause in the C++ memory-model sense is NOT a theorem (no hardware memory model in Lean); it is monitored by K4 (free-running threads "
                 "under ThreadSanitizer, guard off). One race is a genuine open finding (F8: unsynchronised read of the lock-array list vs append) and "
                 "is reported as KNOWN-FINDING; any other ThreadSanitizer report is a violation.",
